@@ -279,7 +279,7 @@ func lsGenMut(g kit.G, m *lsGenModel, def []int, later bool) lsMut {
 }
 
 func lsGenCmd(g kit.G, m *lsGenModel, def []lsArg, step, nsteps int) lsCmd {
-	if step > 0 && step < nsteps-1 && g.Bool(16, "remove") || (step == nsteps-1 && step > 0 && g.Bool(6, "remove-last")) {
+	if step > 0 && step < nsteps-1 && g.Bool(24, "remove") || (step == nsteps-1 && step > 0 && g.Bool(8, "remove-last")) {
 		cmd := lsCmd{Op: "remove"}
 		n := 1
 		if g.Bool(15, "twosel") {
